@@ -14,7 +14,7 @@ use std::sync::atomic::{AtomicU64, Ordering};
 
 #[derive(Clone, Debug, Serialize, Deserialize, PartialEq)]
 pub struct FileFault {
-    /// 0 policies, 1 links, 2 entities, 3 schema, 4 context
+    /// 0 policies, 1 links, 2 entities, 3 schema, 4 context, 5 request-json
     pub file: u8,
     /// 1 absent, 2 truncate@arg, 3 flip bit arg, 4 replaced by another file's bytes (arg picks), 5 emptied, 6 garbage appended
     pub kind: u8,
@@ -34,6 +34,9 @@ pub struct CliOp {
     pub req: ReqDoc,
     pub verbose: bool,
     pub request_validation: bool,
+    /// give the request as a `--request-json` file instead of flags + `--context`
+    #[serde(default)]
+    pub request_json: bool,
     pub faults: Vec<FileFault>,
     pub hash_seed: u64,
 }
@@ -50,10 +53,10 @@ pub fn cli_available() -> Option<(String, String)> {
     }
 }
 
-fn apply_faults(files: &mut [Option<Vec<u8>>; 5], faults: &[FileFault], fired: &mut Vec<&'static str>) {
+fn apply_faults(files: &mut [Option<Vec<u8>>; 6], faults: &[FileFault], fired: &mut Vec<&'static str>) {
     let orig = files.clone();
     for f in faults {
-        let i = f.file as usize % 5;
+        let i = f.file as usize % 6;
         let Some(cur) = files[i].clone() else { continue };
         let new: Option<Vec<u8>> = match f.kind % 7 {
             1 => None,
@@ -75,7 +78,7 @@ fn apply_faults(files: &mut [Option<Vec<u8>>; 5], faults: &[FileFault], fired: &
                 }
             }
             4 => {
-                let j = (i + 1 + f.arg as usize % 4) % 5;
+                let j = (i + 1 + f.arg as usize % 5) % 6;
                 Some(orig[j].clone().unwrap_or_default())
             }
             5 => Some(vec![]),
@@ -120,7 +123,7 @@ fn rename_from_id(ps: &PolicySet) -> Result<PolicySet, String> {
     Ok(out)
 }
 
-fn api_policies(files: &[Option<Vec<u8>>; 5], with_links: bool) -> Result<PolicySet, String> {
+fn api_policies(files: &[Option<Vec<u8>>; 6], with_links: bool) -> Result<PolicySet, String> {
     let bytes = files[0].as_ref().ok_or("policies file absent")?;
     let text = std::str::from_utf8(bytes).map_err(|e| e.to_string())?;
     let ps = PolicySet::from_str(text).map_err(|e| e.to_string())?;
@@ -146,7 +149,7 @@ fn api_policies(files: &[Option<Vec<u8>>; 5], with_links: bool) -> Result<Policy
     Ok(ps)
 }
 
-fn api_schema_bytes(files: &[Option<Vec<u8>>; 5], json: bool) -> Result<Schema, String> {
+fn api_schema_bytes(files: &[Option<Vec<u8>>; 6], json: bool) -> Result<Schema, String> {
     let bytes = files[3].as_ref().ok_or("schema file absent")?;
     let text = std::str::from_utf8(bytes).map_err(|e| e.to_string())?;
     if json {
@@ -183,12 +186,13 @@ pub fn do_cli(step: usize, op: &CliOp, ps: &PsDoc, store: &[Value], schema_text:
         })
         .collect();
     let with_links = !ps.links.is_empty();
-    let mut files: [Option<Vec<u8>>; 5] = [
+    let mut files: [Option<Vec<u8>>; 6] = [
         Some(policies_text.into_bytes()),
         if with_links { Some(serde_json::to_vec(&links_json).unwrap_or_default()) } else { None },
         Some(serde_json::to_vec(&Value::Array(store.to_vec())).unwrap_or_default()),
         schema_text.as_ref().map(|(t, _)| t.clone().into_bytes()),
-        Some(serde_json::to_vec(&op.req.ctx).unwrap_or_default()),
+        if op.request_json { None } else { Some(serde_json::to_vec(&op.req.ctx).unwrap_or_default()) },
+        if op.request_json { Some(serde_json::to_vec(&json!({"principal": op.req.p, "action": op.req.a, "resource": op.req.r, "context": op.req.ctx})).unwrap_or_default()) } else { None },
     ];
     let had: Vec<bool> = files.iter().map(|f| f.is_some()).collect();
     // ---- faults between write and read
@@ -211,7 +215,7 @@ pub fn do_cli(step: usize, op: &CliOp, ps: &PsDoc, store: &[Value], schema_text:
         out.violation = viol("harness_io", "cannot create work dir", step, "dir".into(), dir);
         return out;
     }
-    let names = ["policies.cedar", "links.json", "entities.json", "schema.txt", "context.json"];
+    let names = ["policies.cedar", "links.json", "entities.json", "schema.txt", "context.json", "request.json"];
     for (i, f) in files.iter().enumerate() {
         if let Some(b) = f {
             let _ = std::fs::write(format!("{dir}/{}", names[i]), b);
@@ -234,7 +238,11 @@ pub fn do_cli(step: usize, op: &CliOp, ps: &PsDoc, store: &[Value], schema_text:
             if had[3] {
                 cmd.arg("--schema").arg(path(3)).arg("--schema-format").arg(if json_schema { "json" } else { "cedar" });
             }
-            cmd.arg("--principal").arg(&op.req.p).arg("--action").arg(&op.req.a).arg("--resource").arg(&op.req.r).arg("--context").arg(path(4));
+            if op.request_json {
+                cmd.arg("--request-json").arg(path(5));
+            } else {
+                cmd.arg("--principal").arg(&op.req.p).arg("--action").arg(&op.req.a).arg("--resource").arg(&op.req.r).arg("--context").arg(path(4));
+            }
             if !op.request_validation {
                 cmd.arg("--request-validation").arg("false");
             }
@@ -304,11 +312,34 @@ pub fn do_cli(step: usize, op: &CliOp, ps: &PsDoc, store: &[Value], schema_text:
                     }
                     Some(b) => Entities::from_json_file(&b[..], schema.as_ref()).map_err(|e| errs.push(e.to_string())).ok(),
                 };
-                let p = EntityUid::from_str(&op.req.p).map_err(|e| e.to_string())?;
-                let a = EntityUid::from_str(&op.req.a).map_err(|e| e.to_string())?;
-                let r = EntityUid::from_str(&op.req.r).map_err(|e| e.to_string())?;
-                let cb = files[4].as_ref().ok_or("context absent")?;
-                let ctx = Context::from_json_file(&cb[..], schema.as_ref().map(|s| (s, &a))).map_err(|e| e.to_string())?;
+                let (p, a, r, ctx) = if op.request_json {
+                    // mirror of the documented --request-json format: strings for the three uids, a JSON object for the context
+                    #[derive(Deserialize)]
+                    struct RequestJson {
+                        #[serde(default)]
+                        principal: Option<String>,
+                        #[serde(default)]
+                        action: Option<String>,
+                        #[serde(default)]
+                        resource: Option<String>,
+                        context: Value,
+                    }
+                    let rb = files[5].as_ref().ok_or("request-json absent")?;
+                    let text = std::str::from_utf8(rb).map_err(|e| e.to_string())?;
+                    let q: RequestJson = serde_json::from_str(text).map_err(|e| e.to_string())?;
+                    let p = EntityUid::from_str(&q.principal.ok_or("missing principal")?).map_err(|e| e.to_string())?;
+                    let a = EntityUid::from_str(&q.action.ok_or("missing action")?).map_err(|e| e.to_string())?;
+                    let r = EntityUid::from_str(&q.resource.ok_or("missing resource")?).map_err(|e| e.to_string())?;
+                    let ctx = Context::from_json_value(q.context, schema.as_ref().map(|s| (s, &a))).map_err(|e| e.to_string())?;
+                    (p, a, r, ctx)
+                } else {
+                    let p = EntityUid::from_str(&op.req.p).map_err(|e| e.to_string())?;
+                    let a = EntityUid::from_str(&op.req.a).map_err(|e| e.to_string())?;
+                    let r = EntityUid::from_str(&op.req.r).map_err(|e| e.to_string())?;
+                    let cb = files[4].as_ref().ok_or("context absent")?;
+                    let ctx = Context::from_json_file(&cb[..], schema.as_ref().map(|s| (s, &a))).map_err(|e| e.to_string())?;
+                    (p, a, r, ctx)
+                };
                 let req = Request::new(p, a, r, ctx, if op.request_validation { schema.as_ref() } else { None }).map_err(|e| e.to_string())?;
                 if !errs.is_empty() {
                     return Err(errs.join("; "));
